@@ -39,6 +39,7 @@ void CommandExecutorTransitionHandler::operator()(float value) const
 
 CommandExecutor::CommandExecutor()
     : m_pBytecodeStore(0)
+    , m_pSignalSource(0)
     , m_currentColor()
     , m_currentPyroChannels(0)
     , m_ended(true)
